@@ -230,6 +230,25 @@ func (s *sys) failBoth(fp, format string, args ...any) {
 func platformName(p string) *remoteexecution.Platform { return platforms[p] }
 
 func build(x *mc.X, cfg *config, depth int) *sys {
+	s := newSys(x, cfg, depth)
+
+	// Worker actors: one persistent thread per worker; every "W" letter
+	// makes it perform one Synchronize call, which may block across letters.
+	for _, d := range cfg.workers {
+		a := &actor{decl: d, ch: make(chan int, 1)}
+		a.w = &mWorker{name: d.name, id: map[string]string{"host": d.host}, scq: scqKey{pqKey{d.prefix, d.platform}, d.sc}}
+		s.actors = append(s.actors, a)
+		x.Go(d.name, func() { s.actorLoop(a) })
+	}
+
+	s.addLetters()
+	x.SetKey(s.key)
+	return s
+}
+
+// newSys creates the scheduler under test with its fakes and the reference
+// model, without any threads or letters.
+func newSys(x *mc.X, cfg *config, depth int) *sys {
 	s := &sys{x: x, cfg: cfg, depth: depth, idleStep: -1,
 		keyNames: map[string]string{}, nameKeys: map[string]invocation.Key{}, platNames: map[string]string{}, hostNames: map[string]string{}}
 	s.ctx, s.cancel = context.WithCancel(context.Background())
@@ -284,18 +303,9 @@ func build(x *mc.X, cfg *config, depth int) *sys {
 		s.m.predeclare(pqKey{d.prefix, d.platform}, limits, d.sizeClasses)
 	}
 
-	// Worker actors: one persistent thread per worker; every "W" letter
-	// makes it perform one Synchronize call, which may block across letters.
 	for _, d := range cfg.workers {
-		a := &actor{decl: d, ch: make(chan int, 1)}
-		a.w = &mWorker{name: d.name, id: map[string]string{"host": d.host}, scq: scqKey{pqKey{d.prefix, d.platform}, d.sc}}
 		s.hostNames[fmt.Sprintf(`{"host":%q}`, d.host)] = d.name
-		s.actors = append(s.actors, a)
-		x.Go(d.name, func() { s.actorLoop(a) })
 	}
-
-	s.addLetters()
-	x.SetKey(s.key)
 	return s
 }
 
